@@ -1617,6 +1617,23 @@ CARRIER_EXPRS = [
     "\"don\\\\'t\"", "r\"[\\'\\s]+\"", "f\"{aa}\\\\'\"", "'a\\\\\\'b'", "b\"it\\\\'s\"", "'\\\\' + \"'\"", "lambda vv, ww=2: vv * ww", "lambda vv=(1, 2), *ww, xx=3, **yy: vv",
     "100000000000000000000", "0x1F", "1_000", "2.5", "1e16", "1e-07", "2j", "None", "True", "()", "[]", "{}", "{aa}", "(aa,)", "((aa,),)",
 ]
+# expressions that only exist inside a method / generator / coroutine, or whose node class the module-level carriers never show
+# (every mypy expression class that can reach _stringify should occur at least once: a new printer arm must be faithful)
+METHOD_EXPRS = [
+    "super().attr", "super(_K, self).attr", "super(_Base, self).attr", "super().meth(aa)", "super(_K, self).meth()[0]", "super().meth().real",
+    "self.attr", "type(self).attr", "__class__.attr", "self.meth(*aa, **bb)", "(yield aa)", "(yield)", "(yield from aa)", "(await aa)", "(await aa).attr",
+    "{vv for vv in aa}", "{vv: 1 for vv in aa}", "(vv for vv in aa)", "[vv for vv in aa if vv for ww in vv]", "[vv async for vv in aa]",
+    "cast(int, aa)", "cast('list[int]', aa)", "list[int]", "list[int]()", "dict[str, int]()", "f'{aa=}'", "f'{aa = !r:>4}'", "aa[bb:cc:dd]", "aa[::-1]", "...",
+    "print(*aa, sep='')", "aa(*bb)(**cc)", "not aa is bb", "aa is not bb", "aa not in bb", "(aa, bb) == (cc,)", "[aa, *bb, cc]", "{aa, *bb}", "{'k': aa, **bb, 1: 2}",
+    "b'x' b'y'", "'x' 'y'", "1_0.0_1", "0o17", "0b11", "1.", ".5", "5j.imag", "aa.real.imag", "(aa)(bb)", "aa()()", "aa[bb][cc]", "lambda: (yield)",
+]
+METHOD_WRAP = (
+    "from typing import Any, cast\n"
+    "class _Base:\n    attr: Any = 1\n    def meth(self, *a: Any) -> Any: return [0]\n"
+    "class _K(_Base):\n"
+)
+
+
 CARRIERS = [
     ("FURB110", "zz = ({e}) if ({e}) else qq\n"),
     ("FURB114", "zz = not not ({e})\n"),
@@ -1705,6 +1722,19 @@ def oracle(ctx) -> None:
                     carrier_line[(f"c_{k // per_file:03d}.py", len(lines) + 1)] = e_
                     lines.append(tmpl.format(e=e_))
             (d / f"c_{k // per_file:03d}.py").write_text("".join(lines))
+        # the same carriers inside methods (plain, generator, coroutine) of a subclass: one method per expression
+        mexprs = METHOD_EXPRS + (rng.sample(CARRIER_EXPRS, 12) if ctx.quick else CARRIER_EXPRS)
+        for k in range(0, len(mexprs), 60):
+            lines = [l + "\n" for l in METHOD_WRAP.rstrip("\n").split("\n")]
+            for j, e_ in enumerate(mexprs[k : k + 60]):
+                kind_ = "async def" if "await" in e_ or "async for" in e_ else "def"
+                if kind_ == "async def" and "yield from" in e_:
+                    continue
+                lines.append(f"    {kind_} m{j}(self, aa: Any, bb: Any, cc: Any, dd: Any, qq: Any) -> Any:\n")
+                for _code, tmpl in CARRIERS:
+                    carrier_line[(f"c_m{k // 60:02d}.py", len(lines) + 1)] = e_
+                    lines.append("        " + tmpl.format(e=e_))
+            (d / f"c_m{k // 60:02d}.py").write_text("".join(lines))
         cfiles = sorted(p_.name for p_ in d.glob("c_*.py"))
         errs2 = run_refurb_on(d, sorted(variants) + cfiles, per_batch=1)
         res.bump("baseline_diagnostics", n_base)
